@@ -380,20 +380,43 @@ FRESH_GENERATORS = ('from_os_rng', 'from_entropy', 'try_from_os_rng', 'thread_rn
 DRAWS = ('random', 'fill_bytes', 'fill', 'try_fill_bytes', 'r#gen', 'gen')
 
 
-def fresh_key_material(prog, rep, RULE='R03.9'):
-    """A chunk of another archive is refused only because the (key, nonce prefix) pair of every archive is its own: wherever mla builds an
-    EncryptionConfig, `key` and `nonce` are drawn from a generator which that very call seeded from the operating system -- never from a seed
-    that is kept, derived or shared (from_seed / seed_from_u64 / a static), which would give two archives of one process the same pair."""
-    n = 0
-    for body in prog.crates['mla'].bodies:
+def config_constructions(prog):
+    """(function, its body with private helpers spliced in, block, statement) for every construction of EncryptionConfig in mla. The generator, or the
+    construction itself, may sit in a private helper: a private constructor helper that *receives* its generator is judged where it is called (it is
+    spliced into its callers), not on its own."""
+    from ..inline import inlined_body
+    for body0 in prog.crates['mla'].bodies:
+        if body0.kind == 'Closure':
+            continue
+        body = inlined_body(prog, body0)
         for b in body.blocks:
             if b.cleanup:
                 continue
             for s in b.stmts:
                 if s.kind != 'assign' or s.rv.r != 'aggregate' or s.rv.j.get('agg') != 'adt' or strip_generics(str(s.rv.j.get('adt', ''))) != 'layers::encrypt::EncryptionConfig':
                     continue
+                if body0.vis != 'pub' and body0.impl_trait is None:
+                    gens = [t_ for t_ in (bl_.term for bl_ in body.calls()) if t_.cmethod in DRAWS and t_.args and t_.args[0].place is not None]
+                    if gens and all(must_derive(body, t_.args[0].place[0], lambda k, ob, bb: k == 'param' or (k == 'mutarg' and ob[0].cmethod in DRAWS)) for t_ in gens):
+                        # ... provided it really is spliced wherever it is called (no call to it survives in any caller, closures included)
+                        hp = norm(body0.defpath)
+                        left = [c_ for c_ in prog.crates['mla'].bodies if c_.key != body0.key and
+                                any(cnorm(x.term) == hp for x in (c_ if c_.kind == 'Closure' else inlined_body(prog, c_)).calls())]
+                        if not left:
+                            continue
+                yield body0, body, b, s
+
+
+def fresh_key_material(prog, rep, RULE='R03.9'):
+    """A chunk of another archive is refused only because the (key, nonce prefix) pair of every archive is its own: wherever mla builds an
+    EncryptionConfig, `key` and `nonce` are drawn from a generator which that very call seeded from the operating system -- never from a seed
+    that is kept, derived or shared (from_seed / seed_from_u64 / a static), which would give two archives of one process the same pair."""
+    n = 0
+    for body0, body, b, s in config_constructions(prog):
+        if True:
+            if True:
                 n += 1
-                rep.fn(body)
+                rep.fn(body0)
                 fl = s.rv.j.get('fields') or []
                 for fname in ('key', 'nonce'):
                     key = '%s|%s|%s-drawn-from-os-seeded-generator' % (RULE, body.nkey, fname)
